@@ -115,6 +115,8 @@ pub enum Ev {
     RdOnTs { node: usize, id: u64, ret: u32 },
     RdOnIt { node: usize, id: u64, ret: u32 },
     RdUntracked,
+    /// the following events were produced by managed thread `tid` (concurrent engines)
+    Thread(usize),
 }
 
 impl Ev {
@@ -134,6 +136,7 @@ impl Ev {
             Ev::RdOnTs { node, id, ret } => hh(hh(hh(hh(h, 209), *node as u64), *id), *ret as u64),
             Ev::RdOnIt { node, id, ret } => hh(hh(hh(hh(h, 210), *node as u64), *id), *ret as u64),
             Ev::RdUntracked => hh(h, 211),
+            Ev::Thread(t) => hh(hh(h, 212), *t as u64),
         }
     }
 }
@@ -164,12 +167,21 @@ pub struct Shared {
     pub cells: Vec<AtomicU32>,
     pub log: Mutex<Vec<Ev>>,
     pub log_on: AtomicU32,
+    pub last_tid: std::sync::atomic::AtomicUsize,
 }
 
 impl Shared {
     pub fn push(&self, e: Ev) {
         if self.log_on.load(SeqCst) != 0 {
-            self.log.lock().unwrap_or_else(|e| e.into_inner()).push(e);
+            let mut l = self.log.lock().unwrap_or_else(|e| e.into_inner());
+            #[cfg(feature = "e3")]
+            {
+                let me = shuttle::rt::me().unwrap_or(usize::MAX);
+                if self.last_tid.swap(me, SeqCst) != me {
+                    l.push(Ev::Thread(me));
+                }
+            }
+            l.push(e);
         }
     }
     pub fn take_log(&self) -> Vec<Ev> {
@@ -238,6 +250,7 @@ impl SimDatabase {
             cells: world.cells.iter().map(|c| AtomicU32::new(*c)).collect(),
             log: Mutex::new(vec![]),
             log_on: AtomicU32::new(1),
+            last_tid: std::sync::atomic::AtomicUsize::new(usize::MAX - 7),
         });
         let db = Self::with_shared(shared);
         db.populate(world);
@@ -755,4 +768,72 @@ pub fn ts_entries(db: &SimDatabase) -> Vec<u64> {
 pub fn lru_cached_count(db: &SimDatabase) -> usize {
     let mu = <dyn salsa::Database>::memory_usage(db);
     mu.queries.get("q_lru").and_then(|i| i.heap_size_of_fields()).unwrap_or(0)
+}
+
+/// Touch every salsa item of this crate once (single thread): ingredient caches and other
+/// process-global lazily initialised state are then in place before any measured run.
+pub fn warm_up_all_items() {
+    use crate::refi::World;
+    let ops_all = vec![
+        Op::In { d: 0, i: 0, f: 0 },
+        Op::Intern { t: 0, s: 0 },
+        Op::Intern { t: 1, s: 0 },
+        Op::Intern { t: 2, s: 0 },
+        Op::Intern { t: 3, s: 0 },
+        Op::ReadIt { d: 1, h: 0 },
+        Op::CallOnIt { d: 1, h: 0 },
+        Op::CallOnIt { d: 1, h: 1 },
+        Op::CallOnIt { d: 1, h: 2 },
+        Op::CallOnIt { d: 1, h: 3 },
+        Op::NewTs { i: 0, a: 0, b: 0 },
+        Op::ReadTs { d: 1, h: 0, f: 1 },
+        Op::CallOnTs { d: 1, h: 0 },
+        Op::CallSpec { d: 1, h: 0 },
+        Op::Acc { s: 0 },
+        Op::Untracked { d: 2, c: 0 },
+    ];
+    let kinds = [Kind::OnTs, Kind::Spec, Kind::OnIt, Kind::Zero, Kind::Plain, Kind::NoEq, Kind::Lru, Kind::Multi, Kind::Ref, Kind::Mk];
+    let mut nodes: Vec<Node> = kinds.iter().map(|k| Node { kind: *k, ops: vec![Op::In { d: 0, i: 0, f: 1 }] }).collect();
+    nodes[9].ops = ops_all;
+    nodes.push(Node { kind: Kind::Plain, ops: (0..10).map(|n| Op::Call { d: 0, n }).chain([Op::CallMulti { d: 0, n: 7, s: 0 }, Op::MkCall { d: 0, n: 9 }]).collect() });
+    let prog = Program { m: 4, n_inputs: 1, n_cells: 1, nodes, fb_base: 0, blk_lo: 0, blk_hi: 0, bad_guard: None };
+    let world = World { ins: vec![[1, 2, 3]], cells: vec![1] };
+    let mut db = SimDatabase::new(&prog, &world);
+    db.shared.log_on.store(0, SeqCst);
+    for n in 3..prog.nodes.len() {
+        let _ = std::panic::catch_unwind(std::panic::AssertUnwindSafe(|| request(&db, n, 0)));
+    }
+    let k = db.shared.key(10);
+    let _ = std::panic::catch_unwind(std::panic::AssertUnwindSafe(|| q_plain::accumulated::<Acc>(&db, k).len()));
+    db.set_in(0, 0, 2, Some(Dur::High));
+    set_lru_cap(&mut db, 2);
+    salsa::Database::trigger_lru_eviction(&mut db);
+    let d2 = db.clone();
+    let _ = std::panic::catch_unwind(std::panic::AssertUnwindSafe(|| request(&d2, 10, 0)));
+    drop(d2);
+    salsa::Database::synthetic_write(&mut db, Durability::LOW);
+    let _ = std::panic::catch_unwind(std::panic::AssertUnwindSafe(|| request(&db, 10, 0)));
+    drop(db);
+    // cycle kinds
+    let cyc = Program {
+        m: 16,
+        n_inputs: 1,
+        n_cells: 0,
+        nodes: vec![
+            Node { kind: Kind::Fix, ops: vec![Op::Call { d: 0, n: 1 }, Op::In { d: 1, i: 0, f: 0 }, Op::Arith { d: 0, a: 0, b: 1, o: AOp::Or }] },
+            Node { kind: Kind::FixJ, ops: vec![Op::Call { d: 0, n: 0 }] },
+            Node { kind: Kind::Fb, ops: vec![Op::Call { d: 0, n: 3 }] },
+            Node { kind: Kind::Fb, ops: vec![Op::Call { d: 0, n: 2 }] },
+        ],
+        fb_base: 100,
+        blk_lo: 0,
+        blk_hi: 4,
+        bad_guard: None,
+    };
+    let db = SimDatabase::new(&cyc, &world);
+    db.shared.log_on.store(0, SeqCst);
+    for n in 0..4 {
+        let _ = std::panic::catch_unwind(std::panic::AssertUnwindSafe(|| request(&db, n, 0)));
+    }
+    drop(db);
 }
